@@ -149,6 +149,8 @@ def run(tier):
         R.under_contract(src.func(FT, "RungeKuttaIntegrator.__call__"))
         ex = Executor(src, reg, prop=PID)
         C02.check_call_skeleton(ex, reg, src, True, False)
+        from . import intcall
+        intcall.check_rk_call_unbounded(reg, src, PID, True, False)                  # every retry budget: loop cut by an invariant
         for o in reg.obligations:
             if o.name.startswith("C02/"):
                 o.name = o.name.replace("C02/", PID + "/", 1)
